@@ -233,4 +233,5 @@ def jobs(tier):
     from ._common import mk
     from .. import scenlib as S
     out += mk('C10', 'timeout_during_wal', S.timeout_during_wal(), witnesses=('timeout fired', 'no timeout'))
+    out += mk('C10', 'timeout_bystander', S.timeout_bystander(), witnesses=('timeout fired', 'no timeout'))
     return out
